@@ -365,13 +365,30 @@ def tag(chk, fx):
                 continue
             sites += 1
             ok = True
+            # never-reassigned locals that are copies of the result's term index (const size16_t idx = res.term_idx)
+            written = {A.declref_id(t) for _n, t, _o in A.writes(f.body)}
+            aliases = set()
+            for v in walk(f.body):
+                if v.get("k") == "Var" and v.get("init") is not None and v["id"] not in written:
+                    t = AI.term(v["init"])
+                    if t[0] == "path" and t[2] and t[2][-1][0] == "field" and \
+                            t[2][-1][1] in ("ctpg::recognized_term::term_idx", PS + "current_term_idx"):
+                        aliases.add(v["id"])
+
+            def is_idx(a, b):
+                if _is_termidx(a, b):
+                    return True
+                for x, y in ((a, b), (b, a)):
+                    if y[0] == "const" and x[0] == "path" and len(x[2]) == 1 and x[2][0][0] == "var" and x[2][0][1] in aliases:
+                        return True
+                return False
             for ev, term_ in flow.paths(f.body):
                 tested = False
                 for e in ev:
                     nodes = [e[1]] if e[0] in ("stmt", "cond", "return") else []
                     if e[0] == "cond":
                         a = AI.atom_with_outcome(e[1], e[2])
-                        if a[0] == "cmp" and _is_termidx(a[2], a[3]):
+                        if a[0] == "cmp" and is_idx(a[2], a[3]):
                             v = a[3] if a[3][0] == "const" else a[2]
                             # valid when != sentinel, or == a concrete term index
                             if (a[1] == "!=" and v[1] == 65535) or (a[1] == "==" and v[1] != 65535):
